@@ -210,13 +210,14 @@ def endExtraData (ext : WExt) : Step Nat := fun s =>
 /-- `update_local_file_header` -/
 def updateLocalHeader (s : WState) (file : FileData)
     (k : Unit → M (Except ZErr β × WState)) : M (Except ZErr β × WState) :=
+  -- the compressed-size guard comes first (the D19 repair): a refused entry leaves the sink untouched
+  if !file.largeFile && file.compressedSize > ZIP64_BYTES_THR then pure (.error (.io .other), s) else
   io s (M.seek (.start (file.headerStart.toNat + 14))) fun _ =>
   io s (M.writeAll (le32 file.crc32)) fun _ =>
   if file.largeFile then
     io s (M.seek (.start (file.headerStart.toNat + 30 + file.fileName.length + 4))) fun _ =>
     io s (M.writeAll (le64 file.uncompressedSize)) fun _ =>
     io s (M.writeAll (le64 file.compressedSize)) fun _ => k ()
-  else if file.compressedSize > ZIP64_BYTES_THR then pure (.error (.io .other), s)
   else
     io s (M.writeAll (le32 (trunc32 file.compressedSize))) fun _ =>
     io s (M.writeAll (le32 (trunc32 file.uncompressedSize))) fun _ => k ()
